@@ -40,11 +40,16 @@ AtomsOf(p) ==
                  I64MINS, I64UNDER, NF1, NF2, NF3, NF4, SE, SA, SNL, SU, SP, SQ, SS, SF, SH, SBS}
     \* pool for the on-demand corpora: strings containing brackets, quotes, commas
     [] p = 3 -> {N1, TRU, SS, SQ, N1p5}
+    \* pool for the merge corpora (C19, C20)
+    [] p = 4 -> {N1, SA, NULL}
+    [] p = 5 -> {N1, SA}
 KeysOf(p) ==
   CASE p = 0 -> {SA}
     [] p = 1 -> {SA, <<34,98,34>>}
     [] p = 2 -> {SA, <<34,98,34>>, SE, <<34,92,117,48,48,54,49,34>>, SNL, SF}   \* "a" decodes to "a"
     [] p = 3 -> {SA, <<34,98,34>>, <<34,92,117,48,48,54,49,34>>, SNL, SS}
+    [] p = 4 -> {SA, <<34,98,34>>, <<34,99,34>>}
+    [] p = 5 -> {SA, <<34,98,34>>, <<34,92,117,48,48,54,49,34>>, SNL}     \* with escaped spellings (C20)
 
 Atoms == {Tok(b) : b \in AtomsOf(Pool)}
 Keys  == KeysOf(Pool)
